@@ -208,7 +208,7 @@ def update_kwargs(op):
 
 class C09(World):
     ID = "C09"
-    RUNS = {"quick": 100000, "thorough": 4000000}
+    RUNS = {"quick": 220000, "thorough": 4000000}
     WALL = {"quick": 100.0, "thorough": 1500.0}
     BLOCK = 250
     RULE = (
